@@ -190,15 +190,17 @@ class SqlStorage(MutableMapping):
             raise NamingError("sqlite error in clear: " + str(e))
 
     def optimized_prefix_list(self, prefix, return_metadata=False):
+        # the names are compared as utf-8 bytes: sqlite's text functions stop at a NUL character inside a name
+        bprefix = prefix.encode("utf-8")
         try:
             with sqlite3.connect(self.dbfile) as db:
                 names = {}
                 if return_metadata:
-                    for dbid, name, uri in db.execute("SELECT id, name, uri FROM pyro_names WHERE substr(name, 1, ?) = ?", (len(prefix), prefix)).fetchall():
+                    for dbid, name, uri in db.execute("SELECT id, name, uri FROM pyro_names WHERE substr(CAST(name AS BLOB), 1, ?) = ?", (len(bprefix), bprefix)).fetchall():
                         metadata = {m[0] for m in db.execute("SELECT metadata FROM pyro_metadata WHERE object=?", (dbid,)).fetchall()}
                         names[name] = uri, metadata
                 else:
-                    for name, uri in db.execute("SELECT name, uri FROM pyro_names WHERE substr(name, 1, ?) = ?", (len(prefix), prefix)).fetchall():
+                    for name, uri in db.execute("SELECT name, uri FROM pyro_names WHERE substr(CAST(name AS BLOB), 1, ?) = ?", (len(bprefix), bprefix)).fetchall():
                         names[name] = uri
                 return names
         except sqlite3.DatabaseError as e:
